@@ -589,14 +589,22 @@ pub fn apply<E: Env>(me: u8, op: &Op, slots: &mut Slots, env: &mut E) -> bool {
                 let q = instant(t).to_zoned(p.time_zone().clone());
                 env.handles(x.zone, 1);
                 for u in units {
-                    if quietly(|| {
-                        let _ = p.until((u, &q));
-                        let _ = q.until((u, p));
-                        let _ = p.since((u, &q));
-                    })
-                    .is_none()
-                    {
-                        panics += 1;
+                    for dir in 0..3 {
+                        let r = quietly(|| match dir {
+                            0 => drop(p.until((u, &q))),
+                            1 => drop(q.until((u, p))),
+                            _ => drop(p.since((u, &q))),
+                        });
+                        if r.is_none() {
+                            panics += 1;
+                        }
+                        // A lost count may already have freed the zone: look
+                        // before touching it again.
+                        env.handles(x.zone, 0);
+                        if !env.checkpoint("zoned_sweep") {
+                            std::mem::forget(q);
+                            return false;
+                        }
                     }
                 }
                 drop(q);
